@@ -1877,10 +1877,14 @@ class Cluster(object):
                 return
 
             log.info("Connection pools established for node %s", host)
-            # mark the host as up and notify all listeners
-            host.set_up()
-            for listener in self.listeners:
-                listener.on_up(host)
+            # mark the host as up and notify all listeners (unless a concurrent on_add
+            # has already brought it up and announced it)
+            with host.lock:
+                was_up = host.is_up
+                host.set_up()
+            if not was_up:
+                for listener in self.listeners:
+                    listener.on_up(host)
         finally:
             with host.lock:
                 host._currently_handling_node_up = False
